@@ -35,6 +35,7 @@ pub fn exec(t: &[&str]) -> Option<String> {
     match t {
         ["c06_tree", h] => Some(tree_line(&unhex(h))),
         ["c06_block", b, _hdr, _miner, _txs] => Some(block_line(&unhex(b))),
+        ["c06_cnt", n] => { let n: usize = n.parse().ok()?; Some(match guarded(move || monero::cryptonote::hash::verif_tree_hash_cnt(n)) { Ok(c) => format!("ok {}", c), Err(_) => "panic".into() }) }
         _ => None,
     }
 }
@@ -174,6 +175,26 @@ pub fn run(o: &mut Out, tier: &str, seed: u64) {
         let p = 1usize << k;
         for n in (p - 2)..=(p + 2) { if n > upto { tree_case(o, &mut rng, n, "pow2"); } }
     }
+    // (2b) `tree_hash_cnt` itself (through the cfg(monero_rs_verif) hook) on a dense initial segment, around every power of
+    //      two of the whole domain 3..=2^28, outside the domain (asserts) and at random
+    let dense = if thorough { 300_000usize } else { 70_000 };
+    for n in 0..=dense { o.op(format!("c06_cnt {}", n), n >= 3); }
+    for k in 2..=29u32 { let p = 1usize << k; for n in (p - 2)..=(p + 2) { if n > dense { o.op(format!("c06_cnt {}", n), true); } } }
+    for _ in 0..2000 { let n = 3 + rng.below((1 << 28) - 2) as usize; o.op(format!("c06_cnt {}", n), true); }
+    o.stat_n("cnt.cases", dense as u64 + 2000 + 140);
+    // (2c) large trees at 2^k - 1, 2^k, 2^k + 1: Rust oracle only (fast), three-way through the Lean driver for 2^k + 1, k <= 16
+    let kbig = if thorough { 21 } else { 19 };
+    for k in 13..=kbig { let p = 1usize << k; for n in [p - 1, p, p + 1] {
+        if n <= upto { continue; }
+        if n == p + 1 && k <= 16 && (thorough || k >= 15) { tree_case(o, &mut rng, n, "pow2big"); continue; }
+        let leaves = leaves_from_seed(&mut rng, n);
+        let hs: Vec<Hash> = leaves.iter().map(|l| Hash::from_slice(l)).collect();
+        let got = guarded({ let hs = hs.clone(); move || tree_hash(hs[0], &hs[1..]) });
+        let want = tree_ref(&leaves);
+        let got_s = match &got { Ok(h) => hex(h.as_bytes()), Err(m) => format!("PANIC {}", m) };
+        o.direct(got_s == hex(&want), "tree_hash == recursive CryptoNote tree hash (Rust oracle)", format!("n={} first leaf {}", n, hex(&leaves[0])), got_s, hex(&want));
+        o.stat("tree.pow2big.rust_only");
+    } }
     // (3) degenerate leaves (all equal / all zero): order-insensitive inputs must still agree
     for &n in &[1usize, 2, 3, 4, 5, 7, 8, 9, 33] {
         for fill in [0u8, 0xff] {
@@ -203,7 +224,14 @@ pub fn run(o: &mut Out, tier: &str, seed: u64) {
     // (5) blocks quoted in the library's own tests (includes block 202612 with its 513 transactions)
     let quoted = repo_test_blocks();
     o.notes.push(format!("C06: {} block(s) taken from the tests of src/blockdata/block.rs", quoted.len()));
-    for b in quoted { let blk = deserialize::<Block>(&b).unwrap(); block_case(o, &blk, &b, "repo_test"); }
+    for b in quoted { let blk = deserialize::<Block>(&b).unwrap(); block_case(o, &blk, &b, "repo_test");
+        // neighbours of each quoted block (in particular of block 202612, the only legitimate exception): same height and
+        // transaction count but different content must follow the formula
+        for v in 0..8u32 { let mut m = blk.clone();
+            match v { 0 => m.header.nonce = m.header.nonce.wrapping_add(1), 1 => m.header.timestamp.0 += 1, 2 => m.header.prev_id = Hash::from_slice(&rng.arr32()),
+                3 => { if let Some(h) = m.tx_hashes.last_mut() { *h = Hash::from_slice(&rng.arr32()); } } 4 => { m.tx_hashes.pop(); } 5 => { if m.tx_hashes.len() >= 2 { m.tx_hashes.swap(0, 1); } }
+                6 => { m.header.major_version.0 += 1; } _ => { m.tx_hashes = (0..m.tx_hashes.len()).map(|_| Hash::from_slice(&rng.arr32())).collect(); } }
+            let mb = serialize(&m); block_case(o, &m, &mb, "repo_test_neighbour"); } }
     // malformed block: truncated
     { let blk = gen_block(&mut rng, 3); let b = serialize(&blk); let cut = &b[..b.len() - 7];
       o.stat("block.malformed"); o.op(format!("c06_block {} - - -", hex(cut)), false); }
